@@ -3,6 +3,12 @@
 package eni
 
 import (
+	"context"
+	"net/netip"
+	"time"
+
+	"golang.org/x/time/rate"
+
 	podENITypes "github.com/AliyunContainerService/terway/pkg/apis/network.alibabacloud.com/v1beta1"
 	"github.com/AliyunContainerService/terway/rpc"
 	"github.com/AliyunContainerService/terway/types/daemon"
@@ -27,3 +33,61 @@ func VerifRemoteToRPC(trunk *daemon.ENI, podENI *podENITypes.PodENI) []*rpc.NetC
 	}
 	return r.ToRPC()
 }
+
+// ---- pool observation (properties C01 C04 C05 C06 C07 C09) --------------------------------
+
+// VerifSetRateLimit replaces the package's cloud-call rate (the limiters are built from it in NewLocal).
+func VerifSetRateLimit(l rate.Limit) { rateLimit = l }
+
+type VerifIP struct {
+	Addr    netip.Addr
+	Pod     string
+	Status  int // 1 valid 2 invalid 3 deleting (ipStatus)
+	Primary bool
+}
+
+type VerifSnap struct {
+	Status                       int // 0 init 1 creating 2 inUse 3 deleting
+	ENI                          *daemon.ENI
+	Inhibit                      time.Time
+	V4, V6                       []VerifIP
+	Alloc4, Alloc6, Dang4, Dang6 []*LocalIPRequest
+}
+
+// VerifSnapshot reads the slot's state under its lock without calling any mutating accessor.
+func (l *Local) VerifSnapshot() VerifSnap {
+	l.cond.L.Lock()
+	defer l.cond.L.Unlock()
+	s := VerifSnap{Status: int(l.status), Inhibit: l.ipAllocInhibitExpireAt}
+	if l.eni != nil {
+		e := *l.eni
+		s.ENI = &e
+	}
+	for _, v := range l.ipv4 {
+		s.V4 = append(s.V4, VerifIP{v.ip, v.podID, int(v.status), v.primary})
+	}
+	for _, v := range l.ipv6 {
+		s.V6 = append(s.V6, VerifIP{v.ip, v.podID, int(v.status), v.primary})
+	}
+	s.Alloc4 = append(s.Alloc4, l.allocatingV4...)
+	s.Alloc6 = append(s.Alloc6, l.allocatingV6...)
+	s.Dang4 = append(s.Dang4, l.dangingV4...)
+	s.Dang6 = append(s.Dang6, l.dangingV6...)
+	return s
+}
+
+// VerifReqDone reports whether the request's worker context is cancelled.
+func VerifReqDone(r *LocalIPRequest) bool {
+	select {
+	case <-r.workerCtx.Done():
+		return true
+	default:
+		return false
+	}
+}
+
+// VerifSync runs one periodic metadata sync.
+func (l *Local) VerifSync() { l.sync() }
+
+// VerifSyncPool runs one balancer pass.
+func (m *Manager) VerifSyncPool(ctx context.Context) { m.syncPool(ctx) }
